@@ -2,7 +2,10 @@
 
 package sim
 
-import "runtime"
+import (
+	"runtime"
+	"unsafe"
+)
 
 // RaceEnabled reports whether this binary was built with -race.
 const RaceEnabled = true
@@ -17,3 +20,24 @@ func raceOff() { runtime.RaceDisable() }
 
 //go:norace
 func raceOn() { runtime.RaceEnable() }
+
+// RaceOff / RaceOn are exported for harness code outside this package (monitors).
+//
+//go:norace
+func RaceOff() { runtime.RaceDisable() }
+
+//go:norace
+func RaceOn() { runtime.RaceEnable() }
+
+var gRecycle [256]byte
+
+// raceGStart / raceGExit tell ThreadSanitizer what is physically true but invisible to it:
+// a goroutine that reuses the g (hence the identity) of an exited goroutine starts after
+// that goroutine's exit. Only exit -> later start is ordered; two live goroutines are
+// never ordered by this.
+//
+//go:norace
+func raceGStart(g uintptr) { runtime.RaceAcquire(unsafe.Pointer(&gRecycle[(g>>7)&255])) }
+
+//go:norace
+func raceGExit(g uintptr) { runtime.RaceReleaseMerge(unsafe.Pointer(&gRecycle[(g>>7)&255])) }
